@@ -1907,7 +1907,16 @@ pub fn history_cause(out: &HistoryOutcome) -> impl Fn(&BTreeSet<u32>, &str) -> S
                         let index_before = ok_ops
                             .iter()
                             .any(|(vi, oi)| vi < v && matches!(oi, Op::CreateIndex { col: c, .. } if *c == col));
-                        causes.insert(if index_before { "data-replacement-of-indexed-column" } else { "index-build-raced-data-replacement" });
+                        // since batch 4 the replacement prunes the fragment; an optimize_indices
+                        // afterwards re-claims it together with the old entries
+                        let optimized_after = optimize_versions.iter().any(|vi| vi > v);
+                        causes.insert(if optimized_after {
+                            "optimize-indices-merged-stale-entries"
+                        } else if index_before {
+                            "data-replacement-of-indexed-column"
+                        } else {
+                            "index-build-raced-data-replacement"
+                        });
                     }
                     Op::MergeCol { ids, col: c, .. } if *c == col && ids.iter().any(|i| *i >= lo && *i < hi) => {
                         let optimized_after = optimize_versions.iter().any(|vi| vi > v);
@@ -1919,8 +1928,8 @@ pub fn history_cause(out: &HistoryOutcome) -> impl Fn(&BTreeSet<u32>, &str) -> S
         }
         for c in [
             "deferred-remap-compaction-with-stable-row-ids",
-            "data-replacement-of-indexed-column",
             "optimize-indices-merged-stale-entries",
+            "data-replacement-of-indexed-column",
             "stable-row-id-resolution",
             "index-build-claims-rewritten-fragment",
             "index-build-raced-data-replacement",
